@@ -6,7 +6,11 @@
 #include "common/vlog.h"
 #ifdef USE_STD_PORTABLE
 #include <igris/container/std_portable.h>
+#define KEEP_ON_MOVE 1      // the amalgamated static_vector's move constructor leaves the moved-from elements in the source
+#define FLAVOUR "std_portable"
 #else
+#define KEEP_ON_MOVE 0
+#define FLAVOUR "igris"
 #include <igris/container/vector.h>
 #include <igris/container/static_vector.h>
 #endif
@@ -119,7 +123,8 @@ template <class Cn, class E, bool Static> struct Runner {
             else if (name == "At") { if constexpr (requires { c(k).at(0); }) { try { ret = val_of(c(k).at(a)); } catch (const std::out_of_range &) { threw = 1; ret = 0; } } else unsupported(name); }
             else { fprintf(stderr, "bad op %s\n", name.c_str()); exit(3); }
         } else { fprintf(stderr, "bad static op %s\n", name.c_str()); exit(3); }
-        Ev e("Op"); e.str("name", name.c_str()).i("a", a).i("b", b).i("ret", ret).i("threw", threw).ints("src", srcv); obs(e, k); e.end();
+        std::vector<long long> oc; if ((name == "MoveCtor" || name == "MoveAssign") && exists[d]) { size_t n = c(d).size(); for (size_t j = 0; j < n && j < 64; ++j) oc.push_back(val_of(c(d).data()[j])); }
+        Ev e("Op"); e.str("name", name.c_str()).i("a", a).i("b", b).i("ret", ret).i("threw", threw).ints("src", srcv).ints("ocontents", oc); obs(e, k); e.end();
         if (name == "CopyCtor" || name == "MoveCtor" || name == "CopyAssign" || name == "MoveAssign" || name == "Eq" || name == "Less") { Ev e2("Other"); obs(e2, d); e2.end(); }
     }
     void finish() { for (int k = 0; k < 2; ++k) if (exists[k]) { c(k).~Cn(); exists[k] = false; unreg(k); } }
@@ -139,7 +144,7 @@ static Any *cur = 0;
 int main(int argc, char **argv) {
     return run(argc, argv, [&](const std::vector<std::string> &t) {
         if (t[0] == "R") { if (cur) { cur->finish(); delete cur; cur = 0; } g_blocks.clear();
-            Ev e("Reset"); e.str("kind", t[1].c_str()).str("elem", t[2].c_str()).i("cap", t[1] == "svec" ? num(t[3]) : 0); e.end(); cur = make(t[1], t[2], (int)num(t[3])); return; }
+            Ev e("Reset"); e.str("kind", t[1].c_str()).str("elem", t[2].c_str()).i("cap", t[1] == "svec" ? num(t[3]) : 0).i("keep", KEEP_ON_MOVE && t[1] == "svec" ? 1 : 0).str("flavour", FLAVOUR); e.end(); cur = make(t[1], t[2], (int)num(t[3])); return; }
         if (t[0] == "End") { cur->finish(); Ev e("End"); e.end(); return; }
         cur->op(t);
     });
